@@ -34,6 +34,7 @@ type parseCase struct {
 	Debug     bool   `json:"debug,omitempty"`
 	ErrorPage string `json:"error_page,omitempty"`
 	Siblings  bool   `json:"siblings,omitempty"` // sound files that sort before and after the others
+	Ext       string `json:"ext,omitempty"`      // template extension (default .tw)
 }
 
 func (cs *parseCase) UnmarshalJSON(b []byte) error {
@@ -508,23 +509,27 @@ func TestC08_Soup(t *testing.T) {
 
 func c08Tree(c *harness.Check, cs parseCase, _ bool) string {
 	tr := tree.Tree{}
+	x := ".tw"
+	if cs.Ext != "" {
+		x = cs.Ext
+	}
 	switch cs.As {
 	case "page":
-		tr["t/page.tw"] = tree.Entry{Content: cs.Src}
+		tr["t/page"+x] = tree.Entry{Content: cs.Src}
 	case "layout":
-		tr["t/page.tw"] = tree.Entry{Content: `@use("lay")@insert("r1", "x")`}
-		tr["t/lay.tw"] = tree.Entry{Content: cs.Src}
+		tr["t/page"+x] = tree.Entry{Content: `@use("lay")@insert("r1", "x")`}
+		tr["t/lay"+x] = tree.Entry{Content: cs.Src}
 	case "component":
-		tr["t/page.tw"] = tree.Entry{Content: `a@component("comp")b`}
-		tr["t/comp.tw"] = tree.Entry{Content: cs.Src}
+		tr["t/page"+x] = tree.Entry{Content: `a@component("comp")b`}
+		tr["t/comp"+x] = tree.Entry{Content: cs.Src}
 	case "symlinked-page":
 		// a template file that is a symbolic link to a file kept elsewhere is content of the directory
-		tr["shared/real.tw"] = tree.Entry{Content: cs.Src}
-		tr["t/page.tw"] = tree.Entry{Kind: tree.Symlink, Content: "../shared/real.tw"}
+		tr["shared/real"+x] = tree.Entry{Content: cs.Src}
+		tr["t/page"+x] = tree.Entry{Kind: tree.Symlink, Content: "../shared/real" + x}
 	}
 	if cs.Siblings {
-		tr["t/about.tw"] = tree.Entry{Content: "about {{ 1 + 1 }}"}
-		tr["t/zebra.tw"] = tree.Entry{Content: "zebra"}
+		tr["t/about"+x] = tree.Entry{Content: "about {{ 1 + 1 }}"}
+		tr["t/zebra"+x] = tree.Entry{Content: "zebra"}
 	}
 	if _, err := tree.Materialise(tr); err != nil {
 		return ""
@@ -533,7 +538,11 @@ func c08Tree(c *harness.Check, cs parseCase, _ bool) string {
 	pi := c.Guard("json", mustJSON(cs), func() {
 		textwire.VerifReset()
 		// whether a source ends in a program or an error does not depend on the configuration
-		tpl, err := textwire.NewTemplate(&config.Config{TemplateDir: "t", TemplateExt: ".tw", DebugMode: cs.Debug, ErrorPagePath: cs.ErrorPage})
+		ext := ".tw"
+		if cs.Ext != "" {
+			ext = cs.Ext
+		}
+		tpl, err := textwire.NewTemplate(&config.Config{TemplateDir: "t", TemplateExt: ext, DebugMode: cs.Debug, ErrorPagePath: cs.ErrorPage})
 		if (tpl == nil) == (err == nil) {
 			failure = fmt.Sprintf("NewTemplate returned (%v, %v)", tpl, err)
 			return
@@ -550,7 +559,7 @@ func c08Tree(c *harness.Check, cs parseCase, _ bool) string {
 
 func TestC08_Trees(t *testing.T) {
 	c := harness.New(t, "C08", "trees",
-		"a sample of sources (generated valid templates, their prefixes inside constructs, lexeme soups) written as the only page (a regular file or a symbolic link to one), as the layout of a page and as a component of a page in a template directory (alone or between sound files that sort before and after it; debug mode on or off; no, an existing or a missing custom error page) and loaded with NewTemplate: returns (template, nil) or (nil, error), never panics or hangs; prefixes inside constructs must fail the load. Non-trivial: contains an opener. Distinct by hash of role + source.")
+		"a sample of sources (generated valid templates, their prefixes inside constructs, lexeme soups) written as the only page (a regular file or a symbolic link to one), as the layout of a page and as a component of a page in a template directory (alone or between sound files that sort before and after it; debug mode on or off; no, an existing or a missing custom error page; extensions .tw, .tw.html, .TW, .Tpl, .t-w, .x.Y.z) and loaded with NewTemplate: returns (template, nil) or (nil, error), never panics or hangs; prefixes inside constructs must fail the load. Non-trivial: contains an opener. Distinct by hash of role + source.")
 	defer c.Finish()
 	alpha := c08Alphabet()
 	runRapid(t, c, 1500, 18000, func(rt *rapid.T) {
@@ -580,6 +589,7 @@ func TestC08_Trees(t *testing.T) {
 		cs.Debug = rapid.IntRange(0, 2).Draw(rt, "debug") == 0
 		cs.ErrorPage = rapid.SampledFrom([]string{"", "", "zebra", "nosuch"}).Draw(rt, "errorPage")
 		cs.Siblings = cs.ErrorPage == "zebra" || rapid.Bool().Draw(rt, "siblings")
+		cs.Ext = rapid.SampledFrom([]string{"", "", ".tw.html", ".TW", ".Tpl", ".t-w", ".x.Y.z"}).Draw(rt, "ext")
 		nt := c08NonTrivial(cs.Src)
 		c.Case(nt, cs.As+"|"+cs.Src+fmt.Sprint(cs.Debug, cs.ErrorPage, cs.Siblings), "as:"+cs.As, fmt.Sprintf("debug:%v", cs.Debug), fmt.Sprintf("siblings:%v", cs.Siblings))
 		if nt {
